@@ -2,7 +2,7 @@
 # Re-runs every seeded change under /verif/seeded against the check of the property it
 # breaks (quick tier) and prints the catch matrix.  /repo is restored after each.
 cd "$(dirname "$0")/.." || exit 2
-for d in seeded/*/; do
+for d in seeded/mut_*/ seeded/fix_*/; do
   id=$(basename "$d")
   prop=$(python3 -c "import json;print(json.load(open('$d/meta.json'))['breaks_property'])")
   res=$(tools/try_mutation.sh "$d/patch.diff" $prop 2>&1 | tail -1)
